@@ -11,7 +11,7 @@ for n in 1 2 3 4 5; do
   EV=$(mktemp -d /tmp/msev.XXXX)
   out=$(${VERIFCHK:-/verif/bin/verifchk} -repo $WT -prop all -tier quick -evidence $EV 2>&1 | grep -A2 '^VIOLATION' | grep -v '^--' | cut -c1-260)
   rm -rf $EV
-  props=$(echo "$out" | grep -o 'property=C[0-9]*' | cut -d= -f2 | tr '\n' ' ')
+  props=$(echo "$out" | grep '^VIOLATION' | grep -o 'property=C[0-9]*' | cut -d= -f2 | tr '\n' ' ')
   if [ -z "$out" ]; then echo "MS $id#$n MISSED ($(git -C $WT diff --stat | tail -1 | sed 's/^ *//'))"
   elif echo "$props" | grep -q "$id"; then echo "MS $id#$n CAUGHT-OWN [$props]"; echo "$out" | grep '^  R' | head -3
   else echo "MS $id#$n CAUGHT-OTHER [$props]"; echo "$out" | grep '^  R' | head -3; fi
